@@ -11,9 +11,11 @@ run() { # label props...
   res=MISSED; detail=""
   for p in "$@"; do
     o=$(./check $p 2>&1); rc=$?
-    how=$(echo "$o" | grep -E "^(failed obligation|bounded layer)" | head -1 | cut -c1-160)
+    ded=$(echo "$o" | grep -E "^failed obligation" | head -1 | cut -c1-150)
+    bnd=$(echo "$o" | grep -E "^bounded layer" | head -1 | cut -c1-150)
+    nded=$(echo "$o" | grep -c "^failed obligation")
     und=$(echo "$o" | grep -c "^UNDECIDED")
-    detail="$detail [$p rc=$rc undecided=$und ${how}]"
+    detail="$detail [$p rc=$rc failed_obligations=$nded undecided=$und | ${ded} | ${bnd}]"
     [ $rc = 1 ] && res=CAUGHT
   done
   printf "%s\t%s\t%s\n" "$label" "$res" "$detail" | tee -a $out
